@@ -15,10 +15,11 @@ import (
 )
 
 type LoadConfig struct {
-	RepoDir  string
-	Overlay  map[string][]byte
-	Patterns []string // packages to load from source (roots)
-	Env      []string
+	RepoDir        string
+	Overlay        map[string][]byte
+	Patterns       []string // packages to load from source (roots)
+	Env            []string
+	AutoRootPrefix string // packages with this import-path prefix reachable from Patterns are loaded from source too
 }
 
 // Load builds the SSA program. Only root packages have function bodies.
@@ -33,6 +34,24 @@ func Load(cfg LoadConfig) (*Session, []*packages.Package, error) {
 	// NeedDeps together with NeedSyntax would type-check every dependency with bodies; emulate
 	// LoadSyntax (bodies only for roots) by dropping NeedDeps' body requirement: go/packages
 	// type-checks non-root packages with IgnoreFuncBodies when NeedDeps is not set.
+	// phase 1: find the fx-core packages reachable from the requested roots; they all become roots
+	pre := &packages.Config{Mode: packages.NeedName | packages.NeedImports | packages.NeedDeps, Dir: cfg.RepoDir, Overlay: cfg.Overlay, Env: pcfg.Env}
+	if cfg.AutoRootPrefix != "" {
+		pp, err := packages.Load(pre, cfg.Patterns...)
+		if err != nil {
+			return nil, nil, err
+		}
+		have := map[string]bool{}
+		for _, p := range cfg.Patterns {
+			have[p] = true
+		}
+		packages.Visit(pp, nil, func(p *packages.Package) {
+			if strings.HasPrefix(p.PkgPath, cfg.AutoRootPrefix) && !have[p.PkgPath] {
+				have[p.PkgPath] = true
+				cfg.Patterns = append(cfg.Patterns, p.PkgPath)
+			}
+		})
+	}
 	pcfg.Mode = packages.LoadSyntax
 	initial, err := packages.Load(pcfg, cfg.Patterns...)
 	if err != nil {
